@@ -45,6 +45,9 @@ def main(argv=None) -> int:
     ctx = Ctx(pid, tier, seed)
     try:
         if a.replay:
+            # a replay never overwrites the evidence of the check nor the replay file it reads
+            os.environ.setdefault("VERIF_EVIDENCE_DIR", str(ctx.tmp / "evidence"))
+            ctx.file_tag = "replayed"
             return mod.replay(ctx, a.replay)
         return mod.run(ctx)
     except Machinery as e:
